@@ -28,7 +28,18 @@ class Gen:
         ty, ex, n = FIELD_TYPES[pos % len(FIELD_TYPES)]
         return ty, ex.format(k=k, k1=k + 1), n
 
-    def struct(self, name, kind, nfields, mask, generics=None):
+    # How the ignore attribute is written next to other attributes of the same field / variant, and what the fields
+    # that are NOT ignored carry (an unrelated attribute must neither hide nor cause an ignore)
+    STYLES = [
+        ("#[rust_cc(ignore)] ", ""),
+        ("#[rust_cc(ignore)] #[allow(dead_code)] ", "#[allow(dead_code)] "),
+        ("#[allow(dead_code)] #[rust_cc(ignore)] ", "#[cfg(all())] "),
+        ("#[rust_cc(ignore)]\n    /// documented after the attribute\n    ", "/// documented\n    "),
+        ("/// documented before the attribute\n    #[rust_cc(ignore)] ", "#[doc = \"x\"] #[allow(dead_code)] "),
+        ("#[rust_cc(ignore)] #[cfg(all())] #[allow(dead_code)] ", ""),
+    ]
+
+    def struct(self, name, kind, nfields, mask, generics=None, style=0):
         """kind: 'unit' | 'tuple' | 'named'; mask bit i = field i ignored"""
         self.ntypes += 1
         fields, exprs, expect = [], [], []
@@ -36,7 +47,7 @@ class Gen:
         for i in range(nfields):
             ty, ex, n = self.field(i, k)
             ign = (mask >> i) & 1
-            attr = "#[rust_cc(ignore)] " if ign else ""
+            attr = self.STYLES[style][0] if ign else self.STYLES[style][1]
             if kind == "named":
                 fields.append(f"{attr}f{i}: {ty}")
                 exprs.append(f"f{i}: {ex}")
@@ -68,7 +79,14 @@ class Gen:
         ("T2i", "{v}({f0}, #[rust_cc(ignore)] {f1})", "{t}::{v}({e0}, {e1})", 2, [0, 1], False),
         ("N2i", "{v} {{ #[rust_cc(ignore)] a: {f0}, b: {f1} }}", "{t}::{v} {{ a: {e0}, b: {e1} }}", 2, [1, 0], False),
         ("IGN", "#[rust_cc(ignore)] {v}({f0}, {f1})", "{t}::{v}({e0}, {e1})", 2, [0, 0], True),
+        # the same with other attributes around the rust_cc one (only combined with the shapes above, see main)
+        ("T2j", "{v}({f0}, #[rust_cc(ignore)] #[allow(dead_code)] {f1})", "{t}::{v}({e0}, {e1})", 2, [0, 1], False),
+        ("N2j", "{v} {{ #[rust_cc(ignore)]\n    /// doc after\n    a: {f0}, #[allow(dead_code)] b: {f1} }}", "{t}::{v} {{ a: {e0}, b: {e1} }}", 2, [1, 0], False),
+        ("IGNj", "#[rust_cc(ignore)] #[allow(dead_code)] {v}({f0}, {f1})", "{t}::{v}({e0}, {e1})", 2, [0, 0], True),
+        ("IGNd", "#[rust_cc(ignore)]\n    /// doc after\n    {v}({f0}, {f1})", "{t}::{v}({e0}, {e1})", 2, [0, 0], True),
+        ("T2k", "#[allow(dead_code)] {v}(#[cfg(all())] {f0}, /// doc\n    {f1})", "{t}::{v}({e0}, {e1})", 2, [0, 0], False),
     ]
+    NBASE = 8
 
     def enum(self, name, shape):
         self.ntypes += 1
@@ -119,10 +137,21 @@ def main():
     g.types.append("#[derive(Trace, Finalize)]\n#[allow(dead_code)]\nstruct SNoTrace { a: Probe, #[rust_cc(ignore)] b: NoTrace, c: Probe }\n")
     g.value("SNoTrace", "SNoTrace { a: Probe(0), b: NoTrace(9), c: Probe(1) }", [1, 1])
     g.ntypes += 1
+    # attribute placement: every style x every ignore mask on small structs
+    for style in range(1, len(Gen.STYLES)):
+        for kind in ("tuple", "named"):
+            for n in range(1, 4 if tier == "quick" else 5):
+                for m in range(1 << n):
+                    g.struct(f"A{style}{kind[0].upper()}{n}M{m}", kind, n, m, style=style)
     # enums
     maxv = 2 if tier == "quick" else 4
-    nshapes = len(Gen.VARIANTS)
+    nshapes = Gen.NBASE
     ei = 0
+    for extra in range(Gen.NBASE, len(Gen.VARIANTS)):
+        g.enum(f"EA{extra}", (extra,))
+        for base in range(Gen.NBASE):
+            g.enum(f"EA{extra}x{base}", (extra, base))
+            g.enum(f"EA{base}x{extra}", (base, extra))
     for nv in range(1, maxv + 1):
         for shape in itertools.product(range(nshapes), repeat=nv):
             g.enum(f"E{ei}", shape)
